@@ -84,7 +84,8 @@ func buildHdr(ps []*party) *hdr {
 	h.fk = mon.DetBytes(label+"-filekey", 16)
 	for i, p := range ps {
 		if p == nil {
-			h.stanzas = append(h.stanzas, refage.Stanza{Type: "verif-unknown", Args: []string{"a", "bb"}, Body: mon.DetBytes(label+"-u", 20)})
+			// an unknown stanza: two arguments, or one of the odd shapes (no arguments, ...)
+			h.stanzas = append(h.stanzas, oddShapeUnknown(label))
 			continue
 		}
 		h.stanzas = append(h.stanzas, p.wrap(h.fk, fmt.Sprintf("%s-%d", label, i)))
